@@ -190,6 +190,10 @@ func c19Exec(t *testing.T, scn c19Scenario, ch *mc.Chooser) (rec c19Rec, machine
 				cl.SetOwner(c19SlotOf(2), 2)
 			case "Mw":
 				cl.SetMigrating(c19SlotOf(2), 2)
+			case "X2":
+				// node 2 (owner of none of the keys so far) stops accepting connections: an address a
+				// MOVED/ASK answer names may not be reachable from where the tool runs
+				cl.Nodes[2].Crash()
 			case "K2":
 				cl.Nodes[2].DropParked()
 				cl.Nodes[2].KillConns()
@@ -722,6 +726,32 @@ func runC19(t *testing.T, rep *mc.Reporter) {
 					}
 					scn := c19Scenario{Keys: st, Cfg: cfg, Init: []string{"Pa", "Pb", "M", "Ka"}, Topo: tp, Sleep: true}
 					mc.RunScenario(rep, scn, tb, budget, func(ch *mc.Chooser) mc.Result { return exec(scn, ch) })
+				}
+			}
+		}
+	}
+	// ---- family "unreachable": the node that MOVED/ASK answers name does not accept connections
+	{
+		ub := 1
+		ustreams := [][]int{{0, 0}, {0, 1, 0}, {2, 0, 0}}
+		utopos := [][]string{{"O"}, {"M"}, {"M", "F"}}
+		if tier == "thorough" {
+			ub = 2
+			ustreams = append(ustreams, []int{0, 2, 0, 0})
+		}
+		for _, st := range ustreams {
+			for _, tp := range utopos {
+				for _, cfg := range []aofCfg{
+					{Txn: false, Resume: true, Pipeline: false, Count: 2, Bytes: 1 << 20, DbMode: "id"},
+					{Txn: false, Resume: true, Pipeline: true, Count: 2, Bytes: 1 << 20, DbMode: "id"},
+					{Txn: false, Resume: true, Pipeline: false, Count: 1, Bytes: 1 << 20, DbMode: "id"},
+				} {
+					idx++
+					if idx%nshards != shard || budget.Expired() || (fam != "" && fam != "unreachable") {
+						continue
+					}
+					scn := c19Scenario{Keys: st, Cfg: cfg, Init: []string{"X2"}, Topo: tp, Sleep: true}
+					mc.RunScenario(rep, scn, ub, budget, func(ch *mc.Chooser) mc.Result { return exec(scn, ch) })
 				}
 			}
 		}
